@@ -52,6 +52,10 @@ pub fn scripts() -> Vec<(&'static str, Vec<J>)> {
         ("summary+pool", vec![create.clone(), flush.clone(), ev("SetSummary", json!({"field": "author", "value": s("Bob")})), ctab.clone(), ins.clone(), flush.clone()]),
         ("codepage", vec![create.clone(), ctab.clone(), ins.clone(), ev("SetCodepage", json!({"cp": 1252})), into.clone()]),
         ("reopen-modify", vec![create.clone(), ctab.clone(), ins.clone(), into.clone(), ev("Reopen", json!({})), ev("Insert", json!({"table": t, "rows": [[{"i": 3}, s("three")]]})), ev("Delete", json!({"table": t, "cond": tru()})), ins.clone(), flush.clone()]),
+        // a signed package (the signature is added to the closed file by a signing tool), opened and un-signed
+        ("unsign", vec![create.clone(), ctab.clone(), ins.clone(), into.clone(), ev("AddSignature", json!({})), ev("Reopen", json!({})), ev("RemoveSignature", json!({})), flush.clone()]),
+        // stream-level calls only since the last save: they write through the container, and the save still has to flush the medium
+        ("streams-only", vec![create.clone(), flush.clone(), ev("WriteStream", json!({"name": cps("s"), "data": "g100_5"})), flush.clone(), ev("RemoveStream", json!({"name": cps("s")})), ev("WriteStream", json!({"name": cps("t"), "data": "b0102"})), flush.clone()]),
         ("mixed", vec![create.clone(), ctab.clone(), ins.clone(), upd.clone(), ev("WriteStream", json!({"name": cps("s"), "data": "b0102"})), ev("SetSummary", json!({"field": "comments", "value": s("c")})), del.clone(), flush.clone(), ev("RemoveStream", json!({"name": cps("s")})), into.clone()]),
     ]
 }
@@ -84,14 +88,21 @@ pub fn main(args: &Args) -> i32 {
         };
         let counts = base.2;
         // the fault-free run of every script is validated by TLC as a whole
-        trace.lock().unwrap().extend(traced_rerun(&script, Fault { kind: Kind::Write, k: u64::MAX / 2, persistent: false }));
+        trace.lock().unwrap().extend(traced_rerun(&script, Fault { kind: Kind::Write, k: u64::MAX / 2, persistent: false, ekind: 0 }));
         let mut jobs: Vec<Fault> = Vec::new();
         for &kind in &kinds {
             let n = match kind { Kind::Write => counts.0, Kind::Read => counts.1, Kind::Seek => counts.2 };
             let mut k = 0;
             while k < n {
-                jobs.push(Fault { kind, k, persistent: false });
-                jobs.push(Fault { kind, k, persistent: true });
+                // the kind of error cycles with the call index; NotFound (a kind that callers match on) at every index too
+                jobs.push(Fault { kind, k, persistent: false, ekind: (k % 7) as u8 });
+                jobs.push(Fault { kind, k, persistent: true, ekind: ((k + 3) % 7) as u8 });
+                if k % 7 != 1 {
+                    jobs.push(Fault { kind, k, persistent: false, ekind: 1 });
+                }
+                if (k + 3) % 7 != 1 {
+                    jobs.push(Fault { kind, k, persistent: true, ekind: 1 });
+                }
                 k += stride;
             }
         }
@@ -108,7 +119,7 @@ pub fn main(args: &Args) -> i32 {
                 };
                 let (res, final_state_ok, _c, fired, tr) = run_with_fault(&script, f, &base_state);
                 let mut st = stats.lock().unwrap();
-                let fdesc = json!({"kind": format!("{:?}", f.kind), "k": f.k, "mode": if f.persistent { "persistent" } else { "transient" }});
+                let fdesc = json!({"kind": format!("{:?}", f.kind), "k": f.k, "mode": if f.persistent { "persistent" } else { "transient" }, "error": format!("{:?}", crate::media::EKINDS[f.ekind as usize % 7])});
                 if res.iter().any(|r| r == "panic") {
                     st.3 += 1;
                     viols.lock().unwrap().push(json!({"kind": "fault-panic", "op": name, "what": format!("a call panicked under {} fault at {:?} call {}", if f.persistent { "a persistent" } else { "a transient" }, f.kind, f.k), "case": {"script": name, "fault": fdesc, "results": res}}));
@@ -117,7 +128,7 @@ pub fn main(args: &Args) -> i32 {
                     if let Err(e) = final_state_ok {
                         let mut vs = viols.lock().unwrap();
                         if vs.len() < 300 {
-                            vs.push(json!({"kind": "fault-lost", "op": name, "what": format!("every call returned Ok under a {} {:?} fault at call {} but {}", if f.persistent { "persistent" } else { "transient" }, f.kind, f.k, e), "case": {"script": name, "fault": fdesc}}));
+                            vs.push(json!({"kind": "fault-lost", "op": name, "what": format!("every call returned Ok under a {} {:?} fault ({:?}) at call {} but {}", if f.persistent { "persistent" } else { "transient" }, f.kind, crate::media::EKINDS[f.ekind as usize % 7], f.k, e), "case": {"script": name, "fault": fdesc}}));
                         }
                     }
                     if fired > 0 {
@@ -168,7 +179,8 @@ fn run_with(script: &[J], _f: Option<Fault>) -> (Vec<String>, Option<J>, (u64, u
             counts.0 += after.writes;
             counts.1 += after.reads;
             counts.2 += after.seeks;
-        } else {
+        } else if e["op"] != "AddSignature" {
+            // (AddSignature is the signing tool at work on the closed file: a new medium, none of the library's calls)
             counts.0 += after.writes - before.writes;
             counts.1 += after.reads - before.reads;
             counts.2 += after.seeks - before.seeks;
@@ -206,9 +218,9 @@ fn run_with_fault(script: &[J], f: Fault, base_state: &J) -> (Vec<String>, Resul
         let arm = |sess: &Session, extra: u64| {
             let already = used + extra;
             if f.k >= already {
-                sess.med.set_fault(Some(Fault { kind: f.kind, k: f.k - already, persistent: f.persistent }));
+                sess.med.set_fault(Some(Fault { kind: f.kind, k: f.k - already, persistent: f.persistent, ekind: f.ekind }));
             } else if f.persistent {
-                sess.med.set_fault(Some(Fault { kind: f.kind, k: 0, persistent: true }));
+                sess.med.set_fault(Some(Fault { kind: f.kind, k: 0, persistent: true, ekind: f.ekind }));
             } else {
                 sess.med.set_fault(None);
             }
@@ -225,9 +237,9 @@ fn run_with_fault(script: &[J], f: Fault, base_state: &J) -> (Vec<String>, Resul
             let base_used = used; // calls on previous media
             let target = f.k as i128 - base_used as i128;
             if target >= cur as i128 {
-                sess.med.set_fault(Some(Fault { kind: f.kind, k: target as u64, persistent: f.persistent }));
+                sess.med.set_fault(Some(Fault { kind: f.kind, k: target as u64, persistent: f.persistent, ekind: f.ekind }));
             } else if f.persistent {
-                sess.med.set_fault(Some(Fault { kind: f.kind, k: cur, persistent: true }));
+                sess.med.set_fault(Some(Fault { kind: f.kind, k: cur, persistent: true, ekind: f.ekind }));
             } else {
                 sess.med.set_fault(None);
             }
@@ -264,7 +276,8 @@ fn run_with_fault(script: &[J], f: Fault, base_state: &J) -> (Vec<String>, Resul
     }
     fired += sess.med.counters().faults;
     sess.med.set_fault(None);
-    let verdict = check_bytes(&sess, base_state, false).map_err(|e| e.1);
+    // what counts is what the medium holds durably: the bytes at its last flush() (a save that reports success has flushed it)
+    let verdict = check_bytes(&sess, base_state, true).map_err(|e| e.1);
     // a full trace of this run (re-executed with state logging) for TLC, when the fault fired but nothing reported it
     if fired > 0 {
         tr = traced_rerun(script, f);
@@ -277,9 +290,9 @@ fn exec_fresh(sess: &mut Session, e: &J, f: &Fault, used: u64) -> String {
     // pass the fault through a thread-local that Session consults when it builds a medium.
     crate::session::NEXT_FAULT.with(|nf| {
         *nf.borrow_mut() = if f.k >= used {
-            Some(Fault { kind: f.kind, k: f.k - used, persistent: f.persistent })
+            Some(Fault { kind: f.kind, k: f.k - used, persistent: f.persistent, ekind: f.ekind })
         } else if f.persistent {
-            Some(Fault { kind: f.kind, k: 0, persistent: true })
+            Some(Fault { kind: f.kind, k: 0, persistent: true, ekind: f.ekind })
         } else {
             None
         };
@@ -303,9 +316,9 @@ fn traced_rerun(script: &[J], f: Fault) -> Vec<String> {
             let cur = match f.kind { Kind::Write => c.writes, Kind::Read => c.reads, Kind::Seek => c.seeks };
             let target = f.k as i128 - used as i128;
             if target >= cur as i128 {
-                sess.med.set_fault(Some(Fault { kind: f.kind, k: target as u64, persistent: f.persistent }));
+                sess.med.set_fault(Some(Fault { kind: f.kind, k: target as u64, persistent: f.persistent, ekind: f.ekind }));
             } else if f.persistent {
-                sess.med.set_fault(Some(Fault { kind: f.kind, k: cur, persistent: true }));
+                sess.med.set_fault(Some(Fault { kind: f.kind, k: cur, persistent: true, ekind: f.ekind }));
             } else {
                 sess.med.set_fault(None);
             }
